@@ -302,6 +302,13 @@ struct StepStats
                      // number of integration steps in the accepted trajectory
     bool has = false;
     Real3 last_beg{0, 0, 0};
+    std::vector<Real3> starts;  // distinct start positions (capped)
+    // F15 matcher (uniform fields): a trial step whose three-point sagitta
+    // passes the driver's test although the true sagitta of an arc of that
+    // length exceeds twice the tolerance
+    double kappa = 0;  // path curvature |omega| sin(theta); 0 = unknown
+    double chord_tol = 0;  // delta_chord + dchord_tol
+    bool bad_chord = false;
 };
 
 template<class StepperT>
@@ -318,8 +325,26 @@ struct CountingStepper
             ++st_->chain;
             st_->has = true;
             st_->last_beg = s.pos;
+            if (st_->starts.size() < 256)
+                st_->starts.push_back(s.pos);
         }
         result_type r = step_(step, s);
+        if (st_->kappa > 0)
+        {
+            Real3 bm, be;
+            for (int i = 0; i < 3; ++i)
+            {
+                bm[i] = r.mid_state.pos[i] - s.pos[i];
+                be[i] = r.end_state.pos[i] - s.pos[i];
+            }
+            Real3 cr = cross_product(be, bm);
+            double dch = std::sqrt(dot_product(cr, cr) / dot_product(be, be));
+            double a = step * st_->kappa;  // turning angle of the arc
+            double true_sag = a < 2 * M_PI ? (1 - std::cos(a / 2)) / st_->kappa
+                                           : 2 / st_->kappa;
+            if (dch <= st_->chord_tol && true_sag > 2 * st_->chord_tol)
+                st_->bad_chord = true;
+        }
         if (trace_enabled())
         {
             std::fprintf(stderr,
@@ -497,6 +522,7 @@ struct Case
     V3 x_start;  // position the propagation starts from
 
     double step = 0;
+    double kappa = 0;  // analytic path curvature (uniform fields)
     bool have_aim = false;
     V3 aim = {{0, 0, 0}};  // predicted lowest point of a grazing orbit
 };
@@ -550,6 +576,8 @@ Run do_propagate(Case& cs, OrangeTrackView& tv, double step)
     ParticleTrackView particle(
         sh.particles->host_ref(), sh.pstate->ref(), TrackSlotId{0});
     Run r;
+    r.st.kappa = cs.kappa;
+    r.st.chord_tol = cs.opts.delta_chord + cs.opts.dchord_tol;
     switch (cs.fkind)
     {
         case f_uniform: {
@@ -708,6 +736,8 @@ Verdict judge(Case& cs, Choices& c, CaseLog& log)
         V3 b = cs.bvec;
         normalize(b);
         hx.init(cs.x_start, u_start, b, cs.q * kLorentz * bmag / cs.mom);
+        LD rc = hx.r_curv();
+        cs.kappa = std::isfinite((double)rc) ? double(1 / rc) : 0;
     }
 
     // ZHelixStepper is exact only for an orbit centred on the z axis with
@@ -723,9 +753,9 @@ Verdict judge(Case& cs, Choices& c, CaseLog& log)
         bool centred = off <= 1e-9L * (hx.r_perp() + f.scale);
         bool pos_hel = cs.q * cs.bvec[2] < 0;
         if (!pos_hel || u_start[1] == 0 || par)
-            zh_key = "F12-zhelix-helicity";
+            zh_key = "F36-zhelix-helicity";
         else if (!centred)
-            zh_key = "F11-zhelix-orbit-not-centred-on-z-axis";
+            zh_key = "F35-zhelix-orbit-not-centred-on-z-axis";
         zh_known = !zh_key.empty();
         log.label(centred ? "zhelix-centred" : "zhelix-offaxis");
         if (par)
@@ -819,10 +849,82 @@ Verdict judge(Case& cs, Choices& c, CaseLog& log)
             return log.fail("no boundary, not looping, but distance != step"
                             + describe());
     }
+    // Regimes in which the location of the track relative to boundaries is
+    // not decidable within the configured tolerances (counted, not judged):
+    //  * tight: the orbit diameter is below ~4 delta_chord, so the sagitta
+    //    test never limits a substep, substeps span whole turns, their chords
+    //    can be shorter than minimum_step (boundary test along a stale
+    //    direction) and a boundary within one orbit diameter may be missed;
+    //    once missed, the volume assignment stays wrong for the rest of the
+    //    step
+    //  * grazing start: starting on a boundary, the helix leaves the start
+    //    volume again before it is ever farther than the geometry tolerance
+    //    from the start surface
+    bool tight = false;
+    {
+        LD rp = INFINITY;
+        if (uniform)
+            rp = hx.r_perp();
+        else
+        {
+            RzOracle fo{cs.rz_in};
+            V3 B = fo(cs.x_start);
+            LD bm = geo::norm(B);
+            if (bm > 0)
+            {
+                V3 bb = scaled(B, 1 / bm);
+                LD sp = geo::norm(
+                    sub(u_start, scaled(bb, geo::dot(u_start, bb))));
+                rp = sp * cs.mom / (kLorentz * bm);
+            }
+        }
+        tight = 2 * rp <= 4 * (cs.opts.delta_chord + cs.opts.dchord_tol)
+                || 2 * rp <= 4 * cs.opts.minimum_step;
+    }
+    bool grazing = false;
+    if (uniform && cs.on_boundary && !tight)
+    {
+        for (LD sx = cs.opts.minimum_step / 4; sx < r.p.distance; sx *= 2)
+        {
+            V3 x = hx.pos(sx);
+            geo::Path op = geo::locate(
+                f.model, x, geo::delta_at(f.model, x) * 4);
+            if (op.ambiguous)
+                continue;
+            grazing = !op.same_as(cs.start_path);
+            break;
+        }
+    }
+    if (tight)
+        log.label("regime-tight");
+    if (grazing)
+        log.label("start-grazing-fuzzy");
+    bool judge_loc = !tight && !grazing;
+
+    // F14 matcher: an intermediate position of the track (start of an
+    // integration step) lies exactly on a surface of a universe on its path
+    auto on_surface_exactly = [&](Run const& rr) {
+        for (auto const& sp : rr.st.starts)
+        {
+            V3 x = v3(sp);
+            if (geo::norm(sub(x, cs.x_start)) == 0)
+                continue;
+            geo::Path op = geo::locate(
+                f.model, x, 1e-14L * (f.scale + geo::norm(x)));
+            if (op.ambiguous)
+                return true;
+        }
+        return false;
+    };
+    char const* const kF15
+        = "F39-chord-finder-accepts-substep-with-unconverged-sagitta";
+    char const* const kF14
+        = "F38-orange-no-intersection-from-point-exactly-on-internal-surface";
+
     // (a stepper outside its valid domain -- listed findings F11/F12 -- moves
     // the track along a path unrelated to its direction: only oracles 1, 2,
     // the flag and the helix comparison are applied then)
-    if (!r.p.boundary && !bumped && !zh_known)
+    if (!r.p.boundary && !bumped && !zh_known && judge_loc)
     {
         // every chord was checked by the navigator: the end point lies in the
         // start volume up to the geometry tolerance -- except that substeps
@@ -838,10 +940,41 @@ Verdict judge(Case& cs, Choices& c, CaseLog& log)
             log.label("oracle-overlap");
             return Verdict::trivial;
         }
+        if (!op.ambiguous && !op.same_as(cs.start_path) && trace_enabled())
+        {
+            // debug aid: linear navigation from the start to the end point
+            std::string w2;
+            make_start(cs, tv, &w2);
+            V3 ch = sub(r.pos, cs.x_start);
+            LD len = geo::norm(ch);
+            normalize(ch);
+            std::fprintf(stderr,
+                         "debug: start=(%.12Lg,%.12Lg,%.12Lg) chord=(%.6Lg,%.6Lg,%.6Lg) len=%.6Lg "
+                         "on_boundary=%d\n",
+                         cs.x_start[0], cs.x_start[1], cs.x_start[2],
+                         ch[0], ch[1], ch[2], len, int(tv.is_on_boundary()));
+            tv.set_dir(r3(ch));
+            auto pr = tv.find_next_step(double(len));
+            std::fprintf(stderr,
+                         "debug: find_next_step(len) -> boundary=%d dist=%.9g\n",
+                         int(pr.boundary), pr.distance);
+            bool trunc = false;
+            V3 x1 = geo::along(cs.x_start, ch, 1e-6L);
+            auto segs = geo::trace(f.model, x1, ch, 6, &trunc);
+            for (auto const& sg : segs)
+                std::fprintf(stderr, "debug: oracle seg [%.9Lg, %.9Lg) %s\n", sg.t0, sg.t1, sg.path.str().c_str());
+        }
         if (!op.ambiguous && !op.same_as(cs.start_path))
-            return log.fail("end point without boundary flag is located in "
+        {
+            std::string m = "end point without boundary flag is located in "
                             + op.str() + " but the track is in "
-                            + cs.start_path.str() + describe());
+                            + cs.start_path.str() + describe();
+            if (on_surface_exactly(r))
+                return log.fail(m, kF14);
+            if (r.st.bad_chord)
+                return log.fail(m, kF15);
+            return log.fail(m);
+        }
     }
     if (r.p.boundary && !zh_known)
     {
@@ -928,7 +1061,7 @@ Verdict judge(Case& cs, Choices& c, CaseLog& log)
                     return log.fail(
                         m + " -- the direction is the helix tangent at s'="
                             + fmt(s1),
-                        "F13-boundary-near-substep-start-commits-end-momentum");
+                        "F37-boundary-near-substep-start-commits-end-momentum");
                 m += " {s'=" + fmt(s1) + " smax=" + fmt(smax) + " e2=" + fmt(e2)
                      + "}";
             }
@@ -938,7 +1071,7 @@ Verdict judge(Case& cs, Choices& c, CaseLog& log)
 
     // (5) no boundary deeper than the tolerance jumped (uniform fields)
     long n_samples = 0, n_unamb = 0;
-    if (judge_helix && !zh_known)
+    if (judge_helix && !zh_known && judge_loc)
     {
         LD D = r.p.distance;
         LD rc = hx.r_curv();
@@ -1025,20 +1158,25 @@ Verdict judge(Case& cs, Choices& c, CaseLog& log)
                 continue;
             ++n_unamb;
             if (!op.same_as(cs.start_path))
-                return log.fail(
+            { std::string m_ = (
                     "the helix at s=" + fmt(s) + " lies in " + op.str()
                     + ", more than " + fmt(dl)
                     + " from every surface, but the propagator reported no "
                       "boundary before distance "
                     + fmt(D) + " (start volume " + cs.start_path.str() + ")"
                     + describe());
+                if (on_surface_exactly(r))
+                    return log.fail(m_, kF14);
+                if (r.st.bad_chord)
+                    return log.fail(m_, kF15);
+                return log.fail(m_); }
         }
         log.count("helix_samples", n_samples);
         log.count("helix_samples_unambiguous", n_unamb);
     }
 
     // crossing consistency after a boundary hit
-    if (r.p.boundary && !zh_known)
+    if (r.p.boundary && !zh_known && judge_loc)
     {
         tv.cross_boundary();
         if (tv.failed())
@@ -1086,10 +1224,17 @@ Verdict judge(Case& cs, Choices& c, CaseLog& log)
                                     + op.str() + describe());
             }
             else if (!op.same_as(f.nav_path()))
-                return log.fail("after crossing the volume is "
+            {
+                std::string m = "after crossing the volume is "
                                 + f.nav_path().str()
                                 + " but just beyond the boundary lies "
-                                + op.str() + describe());
+                                + op.str() + describe();
+                if (on_surface_exactly(r))
+                    return log.fail(m, kF14);
+                if (r.st.bad_chord)
+                    return log.fail(m, kF15);
+                return log.fail(m);
+            }
             if (op.same_as(cs.start_path))
                 log.label("boundary-reentrant");
             else
@@ -1379,6 +1524,7 @@ Verdict decode_and_run(GeoSource& src, Choices& c, CaseLog& log)
         bdir = {{0, 0, bz_neg ? -1.0L : 1.0L}};
 
     LD radius = rgyro;  // p = k B R
+    double step_override = 0;
     bool aimed = false;
 
     auto boundary_point = [&](V3 const& from, V3 const& w, V3& q, V3& n) {
@@ -1500,6 +1646,38 @@ Verdict decode_and_run(GeoSource& src, Choices& c, CaseLog& log)
             log.mix(tau);
             log.mix(int(miss));
             LD tt = miss ? -LD(tau) : LD(tau);
+            bool straddle = c.boolean(0.4);
+            log.mix(int(straddle));
+            if (straddle)
+            {
+                // start close to the surface so that ONE chord spans the dip:
+                // total sagitta H = ah + tau in (0.35, 2.8) delta_chord
+                LD dc = cs.opts.delta_chord;
+                LD ah2 = dc * c.real_in(0.05, 0.9);
+                LD tau2 = dc * c.real_in(0.3, 1.9);
+                LD H = ah2 + tau2;
+                LD R2 = std::max<LD>(rgyro, 4 * H);
+                LD at2 = sqrtl(2 * R2 * H - H * H);
+                V3 t0 = at > 0 ? scaled(tv_, 1 / at) : any_perp(n);
+                V3 p2 = add(add(q, scaled(n, ah2)), scaled(t0, -at2));
+                geo::Path a = geo::locate(
+                    f.model, p, geo::delta_at(f.model, p) * 4);
+                geo::Path b = geo::locate(
+                    f.model, p2, geo::delta_at(f.model, p2) * 4);
+                if (usable(b) && b.same_as(a))
+                {
+                    p = p2;
+                    cs.p0 = p2;
+                    ah = ah2;
+                    at = at2;
+                    tv_ = scaled(t0, at2);
+                    tt = tau2;
+                    step_override = double(2 * R2 * atan2l(at2, R2 - H));
+                    log.label("aim-straddle");
+                    for (int k = 0; k < 3; ++k)
+                        log.mix(double(p2[k]));
+                }
+            }
             if (at > 0 && ah + tt > 0)
             {
                 V3 t = scaled(tv_, 1 / at);
@@ -1632,6 +1810,8 @@ Verdict decode_and_run(GeoSource& src, Choices& c, CaseLog& log)
                   * (c.boolean() ? 1.0 : c.real_in(0.5, 2));
         log.label("step-near-minimum");
     }
+    if (step_override > 0 && cs.have_aim)
+        cs.step = step_override;
     log.mix(cs.step);
     log.d("step", cs.step);
 
@@ -1744,10 +1924,27 @@ void setup()
 
 Verdict run_case(Choices& c, CaseLog& log)
 {
+    // Geometry sources for C08: bundled fixtures and generated raw inputs.
+    // Construction-API models (enabled in geosrc.hh when VERIF_HAVE_GEOGEN is
+    // defined) are skipped: navigation-vs-oracle disagreements inside such
+    // models are the subject of C03/C09 (see notes).
     GeoSource src;
-    Verdict gv = choose_geometry(c, log, src);
+    Verdict gv = Verdict::trivial;
+    for (int attempt = 0; attempt < 4; ++attempt)
+    {
+        src = GeoSource{};
+        gv = choose_geometry(c, log, src);
+        if (gv == Verdict::rejected)
+            return gv;
+        if (gv == Verdict::pass && src.fix && src.fix->name != "api")
+            break;
+        gv = Verdict::trivial;
+    }
     if (gv != Verdict::pass)
-        return gv;
+    {
+        log.label("geo-api-skipped");
+        return Verdict::trivial;
+    }
     try
     {
         return decode_and_run(src, c, log);
